@@ -194,6 +194,9 @@ def episode(ctx, env, inner_of, rng, where, padding, first_obs):
     while not done:
         if not check_actions(ctx, env, inner, where):
             return False
+        between = getattr(env, "_jsv_between_steps", None)
+        if between is not None:
+            between()
         op = rng.choice(inner.dispatcher.available_operations())
         m = rng.choice(op.machines)
         act = (op.job_id, m if len(op.machines) > 1 or rng.random() < 0.6 else -1)
@@ -232,6 +235,23 @@ def run_single(ctx, case):
                                 use_padding=case["padding"], **kw)
     ctx.count("single_env_configs")
     shapes0 = None
+    sib = None
+    if case["seed"] % 5 == 1:
+        # a second environment for the same instance object (own graph), stepped in between
+        feats2, rw2, up2 = configs(case)
+        sib = SingleJobShopGraphEnv(builders()[case["builder"]](instance), feats2,
+                                    reward_function_config=rw2, graph_updater_config=up2,
+                                    use_padding=case["padding"], **kw)
+        sib.reset()
+        ctx.count("single_envs_with_a_sibling_env")
+
+        def sibling_steps():
+            for _ in range(rng.randint(1, 2)):
+                if sib.dispatcher.schedule.is_complete():
+                    sib.reset()
+                op9 = rng.choice(sib.dispatcher.available_operations())
+                sib.step((op9.job_id, rng.choice(op9.machines)))
+        env._jsv_between_steps = sibling_steps
     for ep in range(3):
         obs, info = env.reset()
         if info != {}:
